@@ -12,7 +12,9 @@
      pcap gcap rcap   caps that BIND on this universe (0 = cap out of play):
             per-peer address cap, pstoremem's global unconnected cap, pstoremem's
             signed-record cap.  If any is non-zero the case is judged by the
-            weak (soundness + bound) monitor and is not replayed on the model.
+            weak monitor; a pstoreds case with a binding per-peer cap is also
+            replayed on the capped model (Model_cap.dc_step), a pstoremem case
+            with binding caps is not replayed (victims by Go map order).
      nP nA  number of peers / transport addresses in the universe (ids 1..)
 
      op = 1 p ttl n (a sfx)*n                 AddAddrs   (AddAddr when n = 1, harness' choice)
@@ -34,7 +36,7 @@
      ttl (also old/new): whole seconds, or 2^40 = ConnectedAddrTTL, 2^40+1 = PermanentAddrTTL
      sfx: 0 no /p2p suffix, 1 /p2p/<p>, 2 /p2p/<the peer after p> *)
 From Coq Require Import List ZArith Bool.
-From Verif Require Import lib.Wire gen.Consts_c09 c09.Abs c09.Model_mem c09.Model_ds.
+From Verif Require Import lib.Wire gen.Consts_c09 c09.Abs c09.Model_mem c09.Model_ds c09.Model_cap.
 Import ListNotations.
 Local Open Scope Z_scope.
 
@@ -167,11 +169,25 @@ Fixpoint conform_ds (s : dbook) (i : Z) (tr : list (op * obs)) : list Z :=
       if obs_conform mx x then conform_ds s' (i + 1) r else [ERR_MISMATCH; i; opcode o]
   end.
 
+(* pstoreds under a binding per-peer cap: Model_cap.dc_step (deterministic: the
+   datastore-backed book's eviction does not depend on Go map order) *)
+Fixpoint conform_dsc (cap : Z) (s : dbook) (i : Z) (tr : list (op * obs)) : list Z :=
+  match tr with
+  | [] => []
+  | (o, x) :: r =>
+      let '(s', mx) := dc_step cap s o in
+      if obs_conform mx x then conform_dsc cap s' (i + 1) r else [ERR_MISMATCH; i; opcode o]
+  end.
+
 Definition conform_case (l : list Z) : list Z :=
   match decode_case l with
   | None => [ERR_MALFORMED; 0]
   | Some (c, tr) =>
-      if binding c then []       (* caps that bind are not modelled: weak monitor only *)
+      if binding c then
+        (* pstoremem under binding caps is not replayed (victims by Go map order): weak monitor only *)
+        if (c_store c =? 1) && (0 <? c_pcap c) && (c_gcap c =? 0) && (c_rcap c =? 0)
+        then conform_dsc (c_pcap c) (d_init (c_cache c) (c_look c)) 0 tr
+        else []
       else if c_store c =? 0 then conform_mem m_init 0 tr
       else conform_ds (d_init (c_cache c) (c_look c)) 0 tr
   end.
